@@ -85,7 +85,7 @@ func enumScripts(npos, maxDev int, alphabet []string, f func([]smtpx.Decision)) 
 }
 
 func randomCase(rng *rand.Rand, prop string) *Case {
-	c := &Case{}
+	c := &Case{TLS: 'N'}
 	for _, k := range allCaps {
 		if rng.Intn(3) != 0 {
 			c.Caps = append(c.Caps, k)
@@ -100,6 +100,20 @@ func randomCase(rng *rand.Rand, prop string) *Case {
 		c.Notify = "NEVER"
 	}
 	c.NoNoop = rng.Intn(8) == 0
+	c.TLS = 'N'
+	if rng.Intn(6) == 0 {
+		// a STARTTLS session: other capabilities inside TLS than before
+		c.TLS = []byte{'O', 'M'}[rng.Intn(2)]
+		if rng.Intn(8) != 0 {
+			c.Caps = append(c.Caps, "STARTTLS")
+		}
+		c.CapsTLS = []string{}
+		for _, k := range allCaps {
+			if rng.Intn(2) == 0 {
+				c.CapsTLS = append(c.CapsTLS, k)
+			}
+		}
+	}
 	nm, nr := 1+rng.Intn(3), 1+rng.Intn(3)
 	enc := []byte{'q', 'q', 'b', 'n', 'n'}[rng.Intn(5)]
 	c.Msgs = mkMsgs(nm, nr, enc, bodies[rng.Intn(len(bodies))])
@@ -253,6 +267,59 @@ func generate(r *hx.Run, prop string) []*Case {
 							add(c)
 						}
 					}
+				}
+			}
+		}
+		// STARTTLS sessions: a second EHLO inside TLS REPLACES the extension map.  Capability sets before TLS
+		// (all with STARTTLS, one without) x every capability set after TLS (incl. the empty one) x policy x encoding
+		subsets := func(mask int) []string {
+			var l []string
+			for i, k := range allCaps {
+				if mask&(1<<i) != 0 {
+					l = append(l, k)
+				}
+			}
+			return l
+		}
+		preMasks := []int{15, 1, 6, 0, 9}
+		if thorough {
+			preMasks = []int{0, 1, 2, 3, 4, 5, 6, 7, 8, 9, 10, 11, 12, 13, 14, 15}
+		}
+		for _, pm := range preMasks {
+			for post := 0; post < 16; post++ {
+				for _, pol := range []byte{'M', 'O'} {
+					for _, enc := range []byte{'q', 'n'} {
+						c := base(2, 2, enc, append(subsets(pm), "STARTTLS"), nil)
+						c.TLS, c.CapsTLS = pol, subsets(post)
+						if post%5 == 0 && post != 0 {
+							c.CapsTLS = append(c.CapsTLS, "STARTTLS") // advertised again inside TLS: must not be used
+						}
+						c.Ret, c.Notify = "FULL", "FAILURE"
+						add(c)
+					}
+				}
+			}
+		}
+		for _, pol := range []byte{'M', 'O'} { // STARTTLS not advertised: mandatory -> dial fails, opportunistic -> plain session
+			c := base(1, 1, 'n', allCaps, nil)
+			c.TLS, c.CapsTLS = pol, []string{}
+			add(c)
+		}
+		// deviations at STARTTLS (position 2) and at the EHLO inside TLS (position 3)
+		for _, post := range [][]string{{}, allCaps} {
+			for _, pol := range []byte{'M', 'O'} {
+				for _, a := range []string{"451:4.3.0_try_again_later", "554:5.7.1_rejected_by_policy", "drop", "220:2.0.0_custom_go_ahead", "250:not_the_starttls_code"} {
+					c := base(2, 1, 'n', append(append([]string{}, allCaps...), "STARTTLS"), scriptWith(map[int]string{2: a}))
+					c.TLS, c.CapsTLS = pol, post
+					add(c)
+				}
+				for _, a := range negDev {
+					c := base(2, 1, 'q', append(append([]string{}, allCaps...), "STARTTLS"), scriptWith(map[int]string{3: a}))
+					c.TLS, c.CapsTLS = pol, post
+					add(c)
+					c2 := base(2, 1, 'q', append(append([]string{}, allCaps...), "STARTTLS"), scriptWith(map[int]string{1: a}))
+					c2.TLS, c2.CapsTLS = pol, post // first EHLO refused: HELO fallback, no STARTTLS possible
+					add(c2)
 				}
 			}
 		}
